@@ -158,11 +158,33 @@ def modelSignalStores : List Access :=
    ⟨n% "Interpreter.SignalVectoredInterrupt", n% "Interpreter.vinterrupt_pending", true, [], true⟩,
    ⟨n% "Interpreter.SignalVectoredInterrupt", n% "Interpreter.vinterrupt_context_switch", true, [], true⟩]
 
+/-- The methods that take a `std::lock_guard`. -/
+def guarded (t : LockTable) (m : Name) : Bool := t.acquires.any (fun q => Nat.beq q.method m)
+
+/-- **One critical section per action.**  The interleaving semantics executes each mailbox / semaphore /
+ICU method as ONE atomic action (e.g. `Send`: read the interrupt-disable flag, store `ready` and `data`).
+That is what the code does when
+* no method takes more than one `lock_guard`,
+* a method that takes a guard calls other translated methods only inside the guard's scope (a call made
+  outside it - say `GetDisableInterrupt()` before the guard of `Send` - is a second critical section whose
+  result is stale by the time the first one runs: the lost wake-up),
+* a method that takes a guard touches lock-protected members only inside the guard's scope (an access
+  that holds no lock and is not atomic either is an init-only member, checked by `initOnlyUnwritten`,
+  or a race, reported by `findRaces`), and
+* a method without a guard that forwards to guarded methods makes a single such call. -/
+def oneCriticalSection (t : LockTable) : Bool :=
+  t.acquires.all (fun q => (t.acquires.filter (fun q' => Nat.beq q'.method q.method)).length == 1) &&
+  t.calls.all (fun c => !(Nat.beq c.kind (n% "method") && guarded t c.method) || !c.locks.isEmpty) &&
+  t.accesses.all (fun a => !guarded t a.method || !a.locks.isEmpty || a.atomic || hasName initOnly a.field) &&
+  t.calls.all (fun c => !(Nat.beq c.kind (n% "method") && !guarded t c.method && guarded t c.target) ||
+    (t.calls.filter (fun c' => Nat.beq c'.kind (n% "method") && Nat.beq c'.method c.method)).length == 1)
+
 /-- What `TeakraModel/Conc.lean` takes from the code, as a check of the table: the callback sites and
 the locks held there, the wiring, no call of any kind inside a channel guard's scope, no nested
-`lock_guard` inside one method, the `Signal…` methods are exactly the modelled atomic stores, and every
-access of `Interpreter::Run` to a latch is an atomic operation. -/
+`lock_guard` inside one method, one critical section per method, the `Signal…` methods are exactly the
+modelled atomic stores, and every access of `Interpreter::Run` to a latch is an atomic operation. -/
 def actionsJustified (t : LockTable) : Bool :=
+  oneCriticalSection t &&
   t.calls.filter (fun c => Nat.beq c.kind (n% "callback")) == modelCallbacks &&
   t.wiring == modelWiring &&
   t.calls.all (fun c => !hasName c.locks (n% "DataChannel.mutex")) &&
